@@ -25,7 +25,9 @@ CHECKS = {
         text="Theorems: a normal return hands back the body's very object and implies all postconditions held on "
              "result/OLD/post-body store (C02_return); with the body's result fixed, all hold => returned, else the error "
              "of the first falsy postcondition (C02_gate); a raising body's exception object passes unchanged and no "
-             "postcondition is evaluated (C02_raise), for every exception tag. Tie as C01, spec_C02 on the implementation.",
+             "postcondition is evaluated (C02_raise), for every exception tag; for every case (any kind of callable, with "
+             "or without invariants around it) a normal return has run the body and is the body's value "
+             "(C02_a_return_is_the_bodys, Proofs/CheckerAfter.v). Tie as C01, spec_C02 on the implementation.",
         note=TB + "Exception classes are tags (residue mod 8 = class); identity compared with `is` in the harness.",
         design="DESIGN.md section 6 C02"),
     "C05": dict(
@@ -188,7 +190,9 @@ CHECKS = {
              "condition, error of the first falsy one of the last group / first falsy postcondition (C16_groups, "
              "C16_first_falsy_postcondition); each condition at most once per check, a lambda once more, each factory "
              "at most once (C16_at_most_once); base lists precede own (Proofs/ElabRefine.v). Tie: spec_C16 + spec_C04 + "
-             "spec_C16_after (after a body that returned every invariant has been evaluated, in list order).",
+             "spec_C16_after (after a body that returned every invariant has been evaluated, in list order - proved of "
+             "the model for every case: C16_every_invariant_after_a_return; so is the phase order of whole calls, the "
+             "invariants around them included: C16_phases_of_a_whole_call; Proofs/CheckerAfter.v).",
         note=TB, design="DESIGN.md section 6 C16"),
     "C17": dict(
         text="Theorems over the heap model of Model/Elab.v where aliasing is explicit: decorating a function with any "
@@ -216,7 +220,9 @@ CHECKS = {
              "definition with their documented exception before anything is decorated, _ARGS/_KWARGS parameters are a "
              "TypeError at decoration, snapshots without a postcondition or with a duplicate name a ValueError, "
              "_ARGS/_KWARGS keywords and result/OLD parameters a TypeError at the call before any condition "
-             "(C19_*). Tie: definition histories with misuse; the exception class of each definition is compared with "
+             "(C19_*); for whole calls of every kind, invariants around them or not, the executable statement spec_C19_call "
+             "is proved of the model for every case (C19_reserved_names_in_a_whole_call, Proofs/CheckerAfter.v). "
+             "Tie: definition histories with misuse; the exception class of each definition is compared with "
              "the set of misuses computed from the declarations (spec_C19_defs); calls with parameters named result / OLD of every kind, passed positionally, by keyword or by default (spec_C19_call).",
         note=TB, design="DESIGN.md section 6 C19"),
     "C20": dict(
